@@ -84,7 +84,13 @@ IsAttachWs(s) == /\ s # <<>> /\ \A i \in 1..Len(s) : s[i] \in {" ", "\t", "\n"}
                  /\ Cardinality({i \in 1..Len(s) : s[i] = "\n"}) <= 1
 IsTextNode(x) == x.k = "text" /\ x.kind # "Com"
 ZeroArgNames == {<<"c","a","p">>, <<"c","u","p">>, <<"i","n">>, <<"n","o","t","i","n">>, <<"i","n","f","t","y">>, <<"n","o","i","n","d","e","n","t">>}
-IsHead(x) == x.k = "cmd" /\ x.name \notin ZeroArgNames     \* a following group would be taken as its argument
+NKind(as, kind) == Cardinality({i \in 1..Len(as) : as[i].k = "group" /\ as[i].kind = kind})
+(* a following group starting with nf would be taken as an argument of x.  A command of the signature  *)
+(* table takes exactly its counts: once they are used up a further group is a sibling.                  *)
+IsHeadFor(x, nf) == /\ x.k = "cmd" /\ x.name \notin ZeroArgNames
+                    /\ ~(x.name \in SigNames /\ (IF nf = "{" THEN NKind(x.args, "{") >= Sig(x.name)[1]
+                                                  ELSE NKind(x.args, "[") >= Sig(x.name)[2] /\ NKind(x.args, "{") >= Sig(x.name)[1]))
+IsHead(x) == IsHeadFor(x, "[")
 IsSizeCmd(x) == x.k = "cmd" /\ x.name \in Punct
 NoHead == T(<<"#">>)
 EnvHead == Cmd(<<"h">>, << Grp("{", <<>>, <<>>) >>)           \* stands for "\begin{name}" + arguments
@@ -100,7 +106,7 @@ CanFollow(fr, new) ==
       nf == First(Src(new))
       anchor == Anchor(fr.hd, its)
       prev == IF its = <<>> THEN fr.hd ELSE Last(its)
-  IN /\ ~(IsHead(anchor) /\ nf \in {"{", "["})                                                   \* G1
+  IN /\ ~(nf \in {"{", "["} /\ IsHeadFor(anchor, nf))                                              \* G1
      /\ ~(prev.k = "cmd" /\ prev.args = <<>> /\ prev.body = <<>> /\ ~IsSizeCmd(prev)
             /\ (nf \in Letters \/ nf = "*"))                                                      \* G2
      /\ ~(fr.ck = "arg" /\ fr.kind = "[" /\ HasTopBracketClose(new))                              \* G3
@@ -229,6 +235,9 @@ Queries(r) == LET ns == NonText(AllNodes(r)) IN
               NameSet(ns) \cup {Absent}
               \cup {Str(x) : x \in {ns[i] : i \in {j \in 1..Len(ns) : ns[j].k = "cmd" /\ ns[j].args # <<>>}}}
               \cup {BeginOf(x.name) : x \in {ns[i] : i \in {j \in 1..Len(ns) : ns[j].k = "env"}}}
+              \cup {BeginOf(x.name) \o StrSeq(x.args) : x \in {ns[i] : i \in {j \in 1..Len(ns) : ns[j].k = "env" /\ ns[j].args # <<>>}}}
+              \cup {BeginOf(x.name) \o Str(x.args[1]) : x \in {ns[i] : i \in {j \in 1..Len(ns) : ns[j].k = "env" /\ Len(ns[j].args) > 1}}}
+              \cup {MathBegin(x.kind) : x \in {ns[i] : i \in {j \in 1..Len(ns) : ns[j].k = "math"}}}
 RECURSIVE SetToSeq(_)
 SetToSeq(S) == IF S = {} THEN <<>> ELSE LET x == CHOOSE y \in S : TRUE IN << x >> \o SetToSeq(S \ {x})
 FindTable(r) == LET rs == SearchRoots(r)
